@@ -142,10 +142,11 @@ func inject(fs *vs.Stream, rec, other []byte, fields []field, format int, comple
 		sp = append(sp, p)
 	}
 	sortInts(sp)
-	if !complete && len(sp) > per/4 {
+	spBudget := minInt(per/4, 256)
+	if !complete && len(sp) > spBudget {
 		// sample structural offsets but keep the head of the record
 		keep := sp[:minInt(len(sp), 8)]
-		for len(keep) < per/4 {
+		for len(keep) < spBudget {
 			keep = append(keep, sp[fs.Intn(len(sp), "sp")])
 		}
 		sp = keep
@@ -155,7 +156,7 @@ func inject(fs *vs.Stream, rec, other []byte, fields []field, format int, comple
 			if byte(v) == rec[p] {
 				continue
 			}
-			if !complete && per <= 64 && v%8 != int(p)%8 && v != 0 && v != 255 && v != 0x7f && v != 0x80 {
+			if !complete && v%8 != int(p)%8 && v != 0 && v != 255 && v != 0x7f && v != 0x80 {
 				continue
 			}
 			x := clone(rec)
@@ -184,10 +185,11 @@ func inject(fs *vs.Stream, rec, other []byte, fields []field, format int, comple
 			cf = append(cf, f)
 		}
 	}
-	if !complete && len(cf) > per {
+	cfBudget := minInt(per, 256)
+	if !complete && len(cf) > cfBudget {
 		var keep []field
 		keep = append(keep, cf[:minInt(8, len(cf))]...)
-		for len(keep) < per {
+		for len(keep) < cfBudget {
 			keep = append(keep, cf[fs.Intn(len(cf), "cf")])
 		}
 		cf = keep
@@ -552,9 +554,10 @@ func injectTokens(fs *vs.Stream, rec []byte, format int, complete bool, per int,
 		return out
 	}
 	sel := idx
-	if !(complete && len(idx) <= 256) && len(idx) > per {
+	tokBudget := minInt(per, 256)
+	if !(complete && len(idx) <= 256) && len(idx) > tokBudget {
 		sel = nil
-		for i := 0; i < per; i++ {
+		for i := 0; i < tokBudget; i++ {
 			sel = append(sel, idx[fs.Intn(len(idx), "tok")])
 		}
 	}
